@@ -335,6 +335,20 @@ def handle (line : String) : String :=
       let (ans, _) := modelRun file []
       answer ("edit " ++ Bytes.toHex file) ans ["corr", "mut"]
     | _, _, _ => bad
+  | "wgap" :: toks =>
+    -- a mesh record that belongs to no LOD: the harness lowers LOD 0's mesh count by one in the
+    -- encoded file (LOD 1 then starts behind a gap in the mesh table) and asks for a metamorphic
+    -- property only: parse -> write -> parse returns the view of the first parse (`stable`).
+    -- Correspondence only: `Spec.encodeMdl` cannot express such files.
+    match parseModel toks with
+    | none => bad
+    | some a =>
+      match a.lods with
+      | l0 :: _ :: _ =>
+        if l0.meshes.length ≥ 2 && inQuantifier a && (view a).isSome then
+          answer ("wgap " ++ Bytes.toHex (encodeMdl a)) "stable" ["corr"]
+        else answer "skip" "skip" ["triv"]
+      | _ => answer "skip" "skip" ["triv"]
   | "write" :: toks =>
     match parseModel toks with
     | none => bad
